@@ -108,10 +108,11 @@ class gen_failure(Exception):
 
 
 class AlignedBuilder(drive.ExprBuilder):
-    def __init__(self, env, own_tbl, u_tbl, frames, foreign, rng, stats, defined_at=None, cur=None):
+    def __init__(self, env, own_tbl, u_tbl, frames, foreign, rng, stats, defined_at=None, cur=None, memo=None):
         super().__init__(env, None)
         self.own_tbl, self.u_tbl, self.frames, self.foreign, self.rng, self.stats = own_tbl, u_tbl, frames, set(foreign), rng, stats
         self.inside = False
+        self.memo = memo if memo is not None else {}
         self.defined_at = defined_at or {}  # handle -> names (re)defined by earlier verbs: those are columns of the table
         self.cur = cur  # the handle the verb is applied to (C.<name> is resolved there)
 
@@ -152,6 +153,18 @@ class AlignedBuilder(drive.ExprBuilder):
         return super().b(e, wrap)
 
     def _aligned(self, e, mixed):
+        # one eval_aligned OBJECT may occur several times (within one verb and in later verbs): expressions are values
+        import json
+
+        key = json.dumps(e, sort_keys=True, default=str)
+        if not any(n.get("k") == "c" for n in kf.walk(e)) and key in self.memo and self.rng.random() < 0.7:
+            self.stats["aligned:object_reused"] += 1
+            return self.memo[key]
+        r = self._aligned_new(e, mixed)
+        self.memo[key] = r
+        return r
+
+    def _aligned_new(self, e, mixed):
         import polars as pl
         import pydiverse.transform as pdt
 
@@ -186,6 +199,7 @@ class AlignedRun(drive.RealRun):
         self.stats = stats
         self.defined_at = {}
         self.cur = None
+        self.memo = {}
 
     def setup_tables(self):
         (ts,) = self.p["tables"]
@@ -200,7 +214,7 @@ class AlignedRun(drive.RealRun):
         self.own0 = self.env[ts["handle"]]
 
     def builder(self):
-        return AlignedBuilder(self.env, self.own0, self.u_tbl, self.frames, self.meta["foreign"], self.rng, self.stats, self.defined_at, self.cur)
+        return AlignedBuilder(self.env, self.own0, self.u_tbl, self.frames, self.meta["foreign"], self.rng, self.stats, self.defined_at, self.cur, self.memo)
 
     def apply(self, st):
         self.cur = st["in"]
@@ -210,6 +224,17 @@ class AlignedRun(drive.RealRun):
             d |= {n for n, _e in st["kw"]}
         self.defined_at[st["out"]] = d
         return new
+
+
+def _unoptimized_schema(rb, h):
+    import polars as pl
+    import pydiverse.transform as pdt
+
+    try:
+        lf = rb.env[h] >> pdt.export(pdt.Polars(lazy=True))
+        return dict(lf.collect(optimizations=pl.QueryOptFlags.none()).schema)
+    except Exception:  # noqa: BLE001
+        return None
 
 
 def check_program(prog, stats, be_cache=None):
@@ -244,7 +269,12 @@ def check_program(prog, stats, be_cache=None):
     p = compare.frames_equal(fa.select(fb.columns), fb, ordered=ordered)
     if p:
         finds.append(Finding("value:pol", "pol", h, "eval_aligned form differs from the plain form (plain == REF): " + p, verb="eval_aligned", extra={"feature": "eval_aligned"}))
-    if dict(fa.select(fb.columns).schema) != dict(fb.schema):
+    if dict(fa.select(fb.columns).schema) != dict(fb.schema) and not p and _unoptimized_schema(rb, h) == dict(fa.select(fb.columns).schema):
+        # D23: the Polars optimizer (common subexpression elimination) conflates literal series that are empty / all null
+        # but of different dtypes; the plan pydiverse.transform built is right (collected without optimizations it has the
+        # schema of the plain form), values are equal - an engine bug, reproduced in notes/polars_bugs.py
+        stats["excluded_by_domain:pol:D23"] += 1
+    elif dict(fa.select(fb.columns).schema) != dict(fb.schema):
         finds.append(Finding("value:pol", "pol", h, f"eval_aligned form has schema {dict(fb.schema)}, plain form {dict(fa.select(fb.columns).schema)}", verb="eval_aligned", extra={"feature": "eval_aligned"}))
     return finds, "judged"
 
